@@ -223,7 +223,9 @@ func (rs *bodyStream) Read(p []byte) (int, error) {
 		// the data on stream may be incomplete
 		if err == io.EOF {
 			if rs.offset != rs.contentLength && rs.contentLength != -2 {
-				err = io.ErrUnexpectedEOF
+				// the peer closed inside the body: the offset stays where it is, so
+				// that skipRest fails as well and the connection is not reused
+				return n, io.ErrUnexpectedEOF
 			}
 			// ensure that skipRest works fine
 			rs.offset = rs.contentLength
